@@ -117,13 +117,37 @@ def build(case, d, tr, bound=None, permute_seed=None, shared=None):
     inner_algo = algo
     inner_run = algo.run
 
+    proposed = {}
+    prof = set((adv or {}).get('profile') or ())
+    skippable = bool(adv) and not case.get('permute') and (
+        (pairing == 'queue' and prof <= {'busy', 'dup'}) or
+        (pairing == 'batch' and prof <= {'dup'}))
+
     def run_probe(cluster, clock, workflow_plan, existing_schedule, task_pool):
         n_pool0 = len(task_pool)
+        if skippable:
+            # a proposal the scheduler skipped (busy or doubly proposed machine) must come
+            # back: the task is still unscheduled, so it has to be either in the schedule the
+            # scheduler hands to the algorithm or back in the task pool
+            try:
+                for t in list(proposed.get(workflow_plan.id, ())):
+                    if not str(t.task_status).endswith('UNSCHEDULED'):
+                        proposed[workflow_plan.id].discard(t)
+                        continue
+                    tr.cnt['c04_skipped_proposals_followed'] += 1
+                    if t not in existing_schedule and t not in task_pool:
+                        proposed[workflow_plan.id].discard(t)
+                        tr.violate('C04', 'skipped_proposal_lost', task=t.id, t=env.now,
+                                   workflow=workflow_plan.id, pairing_family=pairing)
+            except TypeError:
+                pass
         out = inner_run(cluster=cluster, clock=clock, workflow_plan=workflow_plan,
                         existing_schedule=existing_schedule, task_pool=task_pool)
         try:
             allocs, status, pool = out
             new = [t for t in allocs if t not in existing_schedule]
+            if skippable:
+                proposed.setdefault(workflow_plan.id, set()).update(allocs)
             if pairing == 'batch':
                 offer = len(cluster.get_idle_resources(workflow_plan.id))
             else:
